@@ -122,6 +122,10 @@ package util
 //@   ensures {C17} r == anyMatch(commentGroup, pattern)
 //@   loop 1 invariant $k <= len(commentGroup.List) && forall(i, 0, $k, !reMatchString(pattern, commentGroup.List[i].Text))
 //@
+// nMatch: how many of the first k comments match.  The removed comments are exactly that many and the group
+// shrinks by exactly that many: no non-matching line is lost, no matching line is kept.
+//@ spec nMatch(list []*ast.Comment, re *regexp.Regexp, k int) int =
+//@     cond(k <= 0, 0, nMatch(list, re, k-1) + cond(reMatchString(re, list[k-1].Text), 1, 0))
 //@ func ExtractMatchComments(commentGroup, pattern) (removed)
 //@   nilable commentGroup
 //@   requires pattern != nil && wfGroup(commentGroup)
@@ -130,6 +134,12 @@ package util
 //@   ensures {C11,C09} removed == nil || fresh(removed)
 //@   ensures {C11} wfGroup(commentGroup)
 //@   ensures {C11,C09} (removed == nil) == !old(anyMatch(commentGroup, pattern)) && (removed != nil ==> len(removed) > 0)
+//@   ensures {C11,C09} commentGroup != nil ==> len(removed) == old(nMatch(commentGroup.List, pattern, len(commentGroup.List)))
+//@   ensures {C11} commentGroup != nil ==> len(commentGroup.List) == old(len(commentGroup.List)) - len(removed)
+//@   ensures {C11} commentGroup != nil ==> forall(i, 0, len(commentGroup.List), !reMatchString(pattern, commentGroup.List[i].Text))
+//@   loop 1 invariant len(removed) == nMatch(old(commentGroup.List), pattern, $k) && (modified == nil) == (removed == nil)
+//@   loop 1 invariant modified != nil ==> len(modified) == $k - len(removed)
+//@   loop 1 invariant forall(i, 0, len(modified), !reMatchString(pattern, modified[i].Text))
 //@   loop 1 invariant (removed == nil) == forall(i, 0, $k, !reMatchString(pattern, old(commentGroup.List)[i].Text))
 //@   loop 1 invariant removed != nil ==> len(removed) > 0
 //@   loop 1 invariant $k <= len(old(commentGroup.List)) && commentGroup.List == old(commentGroup.List) && sameOld(removed)
@@ -200,6 +210,7 @@ package util
 // ---- marker comments (C11, C03) ------------------------------------------------------------------------------------------------------
 
 //@ func RemoveMatchComments(file, pattern)
+//@   props C11
 //@   requires pattern != nil && file != nil
 //@   assigns all(ast.CommentGroup.List)
 //@   loop 1 invariant $k <= len(file.Comments)
@@ -208,6 +219,7 @@ package util
 // the triggers): they are the assumed go/ast type invariants in /verif/lib/types.spec. The contract keeps
 // memory safety under those invariants, the frame and the length change.
 //@ func InsertComment(file, text, pos)
+//@   props C11, C03
 //@   requires file != nil
 //@   assigns file.Comments, arrays(*ast.CommentGroup), all(ast.CommentGroup.List), arrays(*ast.Comment)
 //@   ensures {C11,C03} len(file.Comments) == old(len(file.Comments)) || len(file.Comments) == old(len(file.Comments)) + 1
